@@ -91,11 +91,14 @@ def is_ignored(value):
 
 
 def remove_meta(value):
-    """Cleanup a dict/list by removing ignored values"""
+    """Cleanup a dict/list by removing ignored values (at any depth, as the
+    hash computation does)"""
     if isinstance(value, list):
-        return [el for el in value if not is_ignored(el)]
+        return [remove_meta(el) for el in value if not is_ignored(el)]
     if isinstance(value, dict):
-        return {key: value for key, value in value.items() if not is_ignored(value)}
+        return {
+            key: remove_meta(el) for key, el in value.items() if not is_ignored(el)
+        }
     return value
 
 
